@@ -528,7 +528,7 @@ class Engine:
                                tgt.lineno, exits)
                 ii = z3.simplify(z3.If(i.z < 0, i.z + base.r, i.z))
                 jj = z3.simplify(z3.If(j.z < 0, j.z + base.c, j.z))
-                new = Mat(z3.Store(base.arr, ii, jj, to_real(val)), base.r, base.c)
+                new = Mat(z3.Store(base.arr, ii, z3.Store(z3.Select(base.arr, ii), jj, to_real(val))), base.r, base.c)
                 for k, v in list(st.env.items()):      # arrays are mutable: rebind every alias
                     if v is base:
                         st.env[k] = new
@@ -1068,7 +1068,7 @@ class Engine:
                            node.lineno, exits)
             ii = z3.simplify(z3.If(i.z < 0, i.z + base.r, i.z))
             jj = z3.simplify(z3.If(j.z < 0, j.z + base.c, j.z))
-            return Num(z3.Select(base.arr, ii, jj), False)
+            return Num(z3.Select(z3.Select(base.arr, ii), jj), False)
         idx = self.eval(sl, st, exits)
         if isinstance(base, Obj):
             h = self.c.calls.get("getitem:%s" % base.cls)
@@ -1419,16 +1419,14 @@ class SkipClause(Exception):
     pass
 
 
-MATSORT = z3.ArraySort(z3.IntSort(), z3.IntSort(), z3.RealSort())
+ROWSORT = z3.ArraySort(z3.IntSort(), z3.RealSort())
+MATSORT = z3.ArraySort(z3.IntSort(), ROWSORT)       # nested arrays: standard SMT-LIB, accepted by cvc5 as well
 
 
 def zero_mat(r, c):
-    return Mat(z3.K(z3.IntSort(), z3.K(z3.IntSort(), z3.RealVal(0))) if False else _zero2(), r, c)
+    return Mat(z3.K(z3.IntSort(), z3.K(z3.IntSort(), z3.RealVal(0))), r, c)
 
 
-def _zero2():
-    i, j = z3.Ints("zi zj")
-    return z3.Lambda([i, j], z3.RealVal(0))
 BUILTIN_NAMES = {"len", "range", "float", "int", "abs", "tuple", "list", "isinstance", "sorted", "min", "max", "sum",
                  "enumerate", "zip", "ValueError", "TypeError", "IndexError", "AssertionError", "str", "type"}
 
@@ -1520,7 +1518,7 @@ class SpecEval:
         base = self.eval(node.value)
         if isinstance(node.slice, ast.Tuple) and isinstance(base, Mat):
             i, j = self.eval(node.slice.elts[0]), self.eval(node.slice.elts[1])
-            return Num(z3.Select(base.arr, i.z, j.z), False)
+            return Num(z3.Select(z3.Select(base.arr, i.z), j.z), False)
         idx = self.eval(node.slice)
         if isinstance(base, Seq):
             return Num(z3.Select(base.arr, idx.z), False)
